@@ -49,7 +49,8 @@ def run(tier, seed, budget, prop='C18'):
 
 RULE_C20 = ('part 1 (Metadata snapshot/restore, real metadata.rs): for every distinct state reached by the C18 exploration (all command sequences up to depth D) and the end '
             'state of every random sequence: restore(snapshot()) into a fresh state machine must reproduce the state exactly (canonical decoded comparison, '
-            'per-topic getters, node address book) and both copies must stay equal under a common 7-command suffix. Part 2 (Raft state-machine adapter '
+            'per-topic getters, node address book) and both copies must stay equal under a common 7-command suffix; the same snapshot installed into lagging replicas (the states after every proper prefix '
+            'of the sender\'s history; up to 6 intermediate states of a random sequence) must leave them in the sender\'s state as well. Part 2 (Raft state-machine adapter '
             'build_snapshot/install_snapshot in octopii/src/openraft/storage.rs) is checked by the octopii harness part of this check when it is available. '
             'non-trivial = distinct reachable state')
 
